@@ -183,11 +183,16 @@ class CorruptRunner {
   }
 
   // returns true when the mutation was detected (error status somewhere), false when harmless
-  bool judge(const Mutation &m) {
+  // For a damaged log / MANIFEST / CURRENT the clause ("may cost records or make open fail, but never yields a value that
+  // was not written or a partially applied batch") carries no option precondition: such files are judged a second time
+  // with paranoid_checks=0, where recovery skips what it cannot read instead of failing.
+  bool judge(const Mutation &m, int paranoid = 1) {
     const char *cls = io_file_class(m.file);
     bool is_table = !strcmp(cls, "table");
+    DbConfig jc = cfg;
+    jc.paranoid = paranoid;
     DbOptions opts;
-    opts.build(cfg);   // fresh block cache and table cache per open
+    opts.build(jc);   // fresh block cache and table cache per open
     opts.opt.create_if_missing = 0;
     SchedConfig sc;
     sc.strategy = ST_EAGER;
@@ -252,7 +257,7 @@ class CorruptRunner {
     }
     sched_end();
     opts.clear();
-    if (!fail_msg.empty()) VF_FAIL("C11", "%s: %s", m.str().c_str(), fail_msg.c_str());
+    if (!fail_msg.empty()) VF_FAIL("C11", "%s%s: %s", m.str().c_str(), paranoid ? "" : " (opened with paranoid_checks=0)", fail_msg.c_str());
     return detected;
   }
 
@@ -311,6 +316,7 @@ int main(int argc, char **argv) {
         r.apply(m);
         r.judge(m);
         r.restore_all();
+        if (strcmp(io_file_class(m.file), "table")) { r.apply(m); r.judge(m, 0); r.restore_all(); }
         n++;
       }
       printf("PASS mutations=%d\n", n);
@@ -356,7 +362,12 @@ int main(int argc, char **argv) {
         if (exhaustive) { for (size_t o = 0; o < bytes.size(); o++) offs.push_back(o); rep.count("files_exhaustively_mutated"); }
         else {
           if (is_table) offs = r.structural_offsets(bytes);
-          else for (size_t o = 0; o < bytes.size() && o < 200; o++) offs.push_back(o);
+          else {
+            // log-format files: the header region of every 32 KiB block first (a record that spans blocks continues there;
+            // the per-class quota would otherwise be used up by the first 200 bytes)
+            for (size_t b = 32768; b < bytes.size(); b += 32768) for (size_t o = b; o < b + 8 && o < bytes.size(); o++) offs.push_back(o);
+            for (size_t o = 0; o < bytes.size() && o < 200; o++) offs.push_back(o);
+          }
           size_t extra = is_table ? 160 : 60;
           for (size_t k = 0; k < extra && !bytes.empty(); k++) offs.push_back((size_t)(splitmix(rng) % bytes.size()));
         }
@@ -373,6 +384,7 @@ int main(int argc, char **argv) {
           } else {
             uint64_t r2 = splitmix(rng);
             ms.push_back(Mutation{fname, o, 'x', 1 << (r2 & 7)});
+            if (!is_table && o >= 32768 && o % 32768 == 0) ms.push_back(Mutation{fname, o, 'z', 0});   // a zeroed sector at a block start
             switch ((r2 >> 8) % 6) {
               case 0: ms.push_back(Mutation{fname, o, 's', 0}); break;
               case 1: ms.push_back(Mutation{fname, o, 's', 255}); break;
@@ -388,6 +400,7 @@ int main(int argc, char **argv) {
             r.apply(m);
             bool det = r.judge(m);
             r.restore_all();
+            if (!is_table) { r.apply(m); r.judge(m, 0); r.restore_all(); rep.count("log_manifest_damage_judged_without_paranoid"); }
             done++;
             class_done[cls]++;
             rep.count("cases");
